@@ -22,6 +22,7 @@ type St struct {
 	Last     uint64 `json:"li"`
 	LastTerm uint64 `json:"lt"`
 	Prev     uint64 `json:"p"`
+	LogLast  uint64 `json:"ll"`
 	Snap     uint64 `json:"si"`
 	SnapTerm uint64 `json:"st"`
 	CfgL     uint64 `json:"cl"`
